@@ -33,6 +33,7 @@ type Facts struct {
 
 	propReach map[string]map[*ssa.Function]bool
 	eff       *effectInfo
+	sentProd  map[*ssa.Global]bool
 }
 
 // NewFacts computes the shared facts.
@@ -47,7 +48,32 @@ func NewFacts(P *ir.Program) *Facts {
 	}
 	F.resolveCalls()
 	F.effects()
+	currentFacts = F
 	return F
+}
+
+// currentFacts is the fact base of the configuration being analysed (rules run sequentially).
+var currentFacts *Facts
+
+// sentinelProduced: some repository function returns the package-level error g directly.
+func (F *Facts) sentinelProduced(g *ssa.Global) bool {
+	if F.sentProd == nil {
+		F.sentProd = map[*ssa.Global]bool{}
+		for _, fn := range F.P.Funcs {
+			ei := ir.ErrorResultIndex(fn.Signature)
+			if ei < 0 {
+				continue
+			}
+			for _, r := range ir.Returns(fn) {
+				if ld, ok := r.Results[ei].(*ssa.UnOp); ok {
+					if gg, ok := ld.X.(*ssa.Global); ok {
+						F.sentProd[gg] = true
+					}
+				}
+			}
+		}
+	}
+	return F.sentProd[g]
 }
 
 func isOwn(P *ir.Program, fn *ssa.Function) bool {
